@@ -131,10 +131,25 @@ _IDS = ("presented LastEventID aimed through the generator's bookkeeping of the 
         "k-th Send fails (30%) or whose Flush fails (15%)")
 
 
+def _with_translated(h):
+    """GFINITE / GVALID: the same histories run through the translated replayers (model column) and the hand-written
+    model (specification column)"""
+    def f(case, go):
+        if case.startswith(("GFINITE ", "GVALID ")):
+            return ["op:" + case.split(" ")[0], "len:" + _bucket_len(len(_ops(case)))]
+        return h(case, go)
+    return f
+
+
+_GREP = {"id": "GREP", "quick": 6000, "thorough": 150000, "thorough_seeds": 4}
+_GREP_RULE = ("; plus the same kind of histories (GFINITE / GVALID, long ones included) run through the replayers as "
+              "TRANSLATED from replay.go (GoSSE/Gen/Replay.lean): real code = translated code = hand-written model")
+
+
 def register(PROPS):
     PROPS["C08"] = {
         "generated_layer": True,
-        "gens": [{"id": "C08", "quick": 40000, "thorough": 800000, "thorough_seeds": 8}],
+        "gens": [{"id": "C08", "quick": 40000, "thorough": 800000, "thorough_seeds": 8}, _GREP],
         "nontrivial": nontrivial_replay,
         "rule": "whole histories (Put / Replay) on a fresh FiniteReplayer: N 2..8 mostly, 9..40 sometimes, 0/1 rarely "
                 "(constructor error), both ID modes, number of accepted Puts below / at N-1, N, N+1 / up to 6N / 60-140, "
@@ -143,13 +158,13 @@ def register(PROPS):
                 "newest / second newest / first ever / unset ID}, of length 6 starting with a Put, and of length 7 over "
                 "{Put, Replay oldest / newest / first ever} starting with a Put, for N in {2,3} x both ID modes (84 808 "
                 "histories, emitted for every seed). Non-trivial = some Replay of the history sent at least one event; "
-                "distinct by case line",
-        "hist": hist_replay,
+                "distinct by case line" + _GREP_RULE,
+        "hist": _with_translated(hist_replay),
         "assumptions": REPLAY_ASSUME[1:3],
     }
     PROPS["C09"] = {
         "generated_layer": True,
-        "gens": [{"id": "C09", "quick": 40000, "thorough": 800000, "thorough_seeds": 8}],
+        "gens": [{"id": "C09", "quick": 40000, "thorough": 800000, "thorough_seeds": 8}, _GREP],
         "nontrivial": nontrivial_replay,
         "rule": "whole histories (Put / Replay / GC / clock advance) on a fresh ValidReplayer with an injected clock: TTL in "
                 "{1,2,5,10,100,1000,2^40} ns (rarely 0 / -5: constructor error), GCInterval default or in {0,-1,1,ttl/2,ttl,"
@@ -160,8 +175,8 @@ def register(PROPS):
                 "shrink while wrapped); " + _IDS + ". Thorough tier: additionally ALL histories of length <= 5 over {Put, three "
                 "Puts, Replay from oldest / newest stored ID, GC, clock+1} and of length 6 starting with three Puts, for "
                 "ttl=2, GCInterval in {0,1} x both ID modes (68 424 histories, emitted for every seed). Non-trivial = some "
-                "Replay of the history sent at least one event; distinct by case line",
-        "hist": hist_replay,
+                "Replay of the history sent at least one event; distinct by case line" + _GREP_RULE,
+        "hist": _with_translated(hist_replay),
         "assumptions": REPLAY_ASSUME,
     }
     PROPS["C18"] = {
